@@ -23,6 +23,10 @@ import (
 
 	"github.com/vimeo/dials"
 	"github.com/vimeo/dials/common"
+	cuedec "github.com/vimeo/dials/decoders/cue"
+	jsondec "github.com/vimeo/dials/decoders/json"
+	tomldec "github.com/vimeo/dials/decoders/toml"
+	yamldec "github.com/vimeo/dials/decoders/yaml"
 	"github.com/vimeo/dials/ez"
 	"github.com/vimeo/dials/ptrify"
 	"github.com/vimeo/dials/sources/env"
@@ -338,10 +342,20 @@ func defaultsOf(lv leafVals) *EzCfg {
 	return c
 }
 
-// the decoder exactly as ez wraps it (ez.go:218-243 with default params)
+// the decoder exactly as ez wraps it (ez.go:218-243 with default params); chosen by the harness's own
+// knowledge of the format, NOT through ez.DecoderFromExtension (which is code under test)
 func ezDecoder(path string) dials.Decoder {
-	d := ez.DecoderFromExtension(path)
-	if d == nil {
+	var d dials.Decoder
+	switch strings.ToLower(filepath.Ext(path)) {
+	case ".json":
+		d = &jsondec.Decoder{}
+	case ".yaml", ".yml":
+		d = &yamldec.Decoder{}
+	case ".toml":
+		d = &tomldec.Decoder{}
+	case ".cue":
+		d = &cuedec.Decoder{}
+	default:
 		return nil
 	}
 	return sourcewrap.NewTransformingDecoder(d, transform.NewAliasMangler(common.DialsTagName), &transform.SetSliceMangler{})
@@ -369,9 +383,19 @@ func run(raw json.RawMessage) driver.Result {
 	defer os.RemoveAll(dir)
 	format := coqfmt.Pick(r, []string{"json", "yaml", "toml", "cue"})
 	watch := r.Chance(1, 2)
-	pathA := filepath.Join(dir, "a."+format)
-	pathB := filepath.Join(dir, "b."+format)
-	pathMissing := filepath.Join(dir, "missing."+format)
+	ext := format
+	if format == "yaml" && r.Chance(1, 2) {
+		ext = "yml"
+	}
+	switch r.Intn(6) { // extensions are matched case-insensitively
+	case 0:
+		ext = strings.ToUpper(ext)
+	case 1:
+		ext = strings.ToUpper(ext[:1]) + ext[1:]
+	}
+	pathA := filepath.Join(dir, "a."+ext)
+	pathB := filepath.Join(dir, "b."+ext)
+	pathMissing := filepath.Join(dir, "missing."+ext)
 
 	def := genLeafs(r, 0, 3, 4)
 	fileA := genLeafs(r, 1, 1, 2)
